@@ -71,7 +71,8 @@ func sampleAttempts(d time.Duration) (int, int, string) {
 func runC14Pace(d1, d2 time.Duration) (int, int, error) {
 	port := sim.FreePort()
 	n := &gomavlib.Node{Endpoints: []gomavlib.EndpointConf{gomavlib.EndpointTCPClient{Address: sim.Addr(port)}},
-		Dialect: ardupilotmega.Dialect, OutVersion: gomavlib.V2, OutSystemID: 9, HeartbeatDisable: true}
+		Dialect: ardupilotmega.Dialect, OutVersion: gomavlib.V2, OutSystemID: 9, HeartbeatDisable: true,
+		ReadTimeout: 100 * time.Millisecond} // shorter than either outage: each attempt has its own time budget
 	if err := initNode(&n); err != nil {
 		return 0, 0, fmt.Errorf("BROKEN: %v", err)
 	}
@@ -116,5 +117,17 @@ func runC14Pace(d1, d2 time.Duration) (int, int, error) {
 	if err := verdict("after the connection was lost", s2, in2, st2); err != nil {
 		return s1, s2, err
 	}
+	// however long the attempts have been failing, the next one succeeds once somebody listens
+	l2, err := net.Listen("tcp4", sim.Addr(port))
+	if err != nil {
+		return s1, s2, fmt.Errorf("BROKEN: listen: %v", err)
+	}
+	l2.(*net.TCPListener).SetDeadline(time.Now().Add(bound)) //nolint:errcheck
+	conn2, err := l2.Accept()
+	l2.Close()
+	if err != nil {
+		return s1, s2, fmt.Errorf("after %v of failed attempts (connect timeout %v) the client never connected again within %v of a listener appearing", d2, n.ReadTimeout, bound)
+	}
+	conn2.Close()
 	return s1, s2, nil
 }
